@@ -981,10 +981,12 @@ def zeros_like(a, dtype=None):
 
 
 def where(cond, *rest):
-    if rest:
-        raise Inconclusive("three-argument where")
     if not isinstance(cond, Arr):
         cond = array(cond)
+    if rest:
+        if len(rest) != 2:
+            raise ValueError("either both or neither of x and y should be given")
+        return _where3(cond, rest[0], rest[1])
     if cond.ndim == 1:
         bits = [zbool(b) for b in cond.elems()]
         if cond.n is not None:
@@ -1000,6 +1002,33 @@ def where(cond, *rest):
             rows.append(p // c)
             cols.append(p % c)
     return (Arr.new(rows, (len(rows),), INT), Arr.new(cols, (len(cols),), INT))
+
+
+def _where3(cond, x, y):
+    cond = cond.fix_len()
+    n = len(cond.offs)
+
+    def operand(v):
+        if isinstance(v, (list, tuple)):
+            v = array(v)
+        if isinstance(v, Arr):
+            v = v.fix_len()
+            if v.shape != cond.shape:
+                if len(v.offs) == 1:
+                    return [v.buf[v.offs[0]]] * n, v.dtype
+                raise ValueError("operands could not be broadcast together")
+            return v.elems(), v.dtype
+        return [_item(v)] * n, _dtype_of_scalar(v)
+    xs, dx = operand(x)
+    ys, dy = operand(y)
+    dt = _join_dtype(dx, dy)
+    out = []
+    for c, a, b in zip(cond.elems(), xs, ys):
+        if is_sym(c):
+            out.append(_simpl(_ite(zbool(c), _cast_in(a, dt), _cast_in(b, dt), dt)))
+        else:
+            out.append(a if c else b)
+    return Arr.new(out, cond.shape, dt)
 
 
 def _live(a):
